@@ -1,8 +1,8 @@
 SPECIFICATION GenSpec
 CONSTANTS
-  NTop = 3
-  KindsCb = {"noop", "raise", "addcb", "addto"}
-  KindsTo = {"noop", "rm"}
+  NTop = 2
+  KindsCb = {"noop", "raise", "failcoro", "addcb", "addto", "rm", "resolve"}
+  KindsTo = {"noop", "addcb", "rm"}
   KindsFut = {"noop"}
   Delays = {0, 1}
   ChildDelays = {0, 1}
